@@ -93,7 +93,12 @@ RichF1(syn, pkg) ==
              THEN LET grp == XGroup("Zg", 1, 9, "optional", 18)      \* a group body is a message body: ranges allowed
                   IN << [grp[1] EXCEPT !.rr = << <<3, 4>> >>, !.xr = << <<100, 100>> >>], grp[2] >>
                      \o << XFld("zf", 18, 1, "optional", TScalar("int32")) >>
-             ELSE << >>))
+             ELSE << >>)
+       \o (IF p3 THEN << >>        \* float defaults that float32 cannot represent exactly; an enum default naming the SECOND alias
+           ELSE << [XFld("zw", 1, 10, sing, TScalar("float")) EXCEPT !.dflt = "0.1"],
+                   [XFld("zu", 1, 11, sing, TScalar("float")) EXCEPT !.dflt = "1e30"],
+                   [XFld("zv", 1, 12, sing, TScalar("double")) EXCEPT !.dflt = "1e30"],
+                   [XFld("zq", 1, 13, sing, TRef(Rel(<<"b">>))) EXCEPT !.dflt = "zd"] >>))
 (* option bases: f1 imports descriptor.proto, declares option extensions and uses them *)
 OptF1(syn, pkg) ==
   LET sing == Singular(syn)
